@@ -34,6 +34,11 @@ Proof. reflexivity. Qed.
 Lemma gen_general_env_eq_model : C19Tables.general_env = Options.general_env.
 Proof. reflexivity. Qed.
 
+(* Backend.__init_subclass__: a backend class that does not pass short_name= gets its own class name, so the
+   environment variables of a backend derived from another backend carry the derived class's name *)
+Lemma gen_env_prefix_is_own_class_name : C19Tables.env_prefix_is_own_class_name = true.
+Proof. reflexivity. Qed.
+
 Lemma gen_backends_eq_model : C19Tables.backends = Options.builtin_backends.
 Proof. reflexivity. Qed.
 
